@@ -17,7 +17,8 @@ def run_pipeline(ctx, cases, chunk=60):
         for c in cases[i:i + chunk]:
             d = {"Text": c["Text"], "Weight": bool(c.get("Weight")), "Repeat": int(c.get("Repeat", 1)),
                  "Solve": bool(c.get("Solve")), "Assemble": bool(c.get("Assemble")),
-                 "Error": c.get("Error", ""), "Order": c.get("Order", ""), "ScratchDir": ctx.work}
+                 "Error": c.get("Error", ""), "Order": c.get("Order", ""), "ScratchDir": ctx.work,
+                 "ViaPre": bool(c.get("ViaPre"))}
             part.append(d)
         outs += C.dump("pipeline", part, timeout=1800)
     return outs
